@@ -22,6 +22,21 @@ CHECKS = {
              "the object (defined under C07); A-FRESH for 'not created in the same block'; sets of transactions keyed by "
              "id (A-KEY); the executor's model of Python (DESIGN section 4).",
         technique=PROOF_TECH),
+    'C02': dict(
+        category='proof', design_ref='6/C02',
+        text="Proved from source for all inputs: the value clauses of the validators (each output and the output total "
+             "in (0, maximum], outputs <= inputs, reward <= subsidy(height) + fees with fees taken in the PARENT's unspent "
+             "set), the exact effect of uto_apply_transaction on the unspent set (what is removed, what is added, and the "
+             "bound on the total for any map agreeing on the spent references), uto_apply_block as the fold of it, and "
+             "the whole-view post-condition of add_block_no_validation (the block's set is built from its parent's). "
+             "Lemma C02.apply-block-total is an induction over the block's transactions (base and step machine-checked "
+             "as structured proof steps); lemma C02.no-inflation concludes for every accepted block: total after <= "
+             "total of parent + subsidy(height) <= cumulative schedule <= 2,099,999,986,350,000 (closed form, C16).",
+        note="Assumed: update laws of a sum over a finite map (A-MAPSUM, instantiated on update chains); A-FRESH; A-ENC "
+             "(serialize raises when an output value does not fit 8 bytes; codec obligations are C07); stored unspent "
+             "sets hold non-negative values (preserved by clause (a) of the induction); the induction principles over "
+             "the transactions of a block and over the chain.",
+        technique=PROOF_TECH + "; structured lemma scripts with named premises"),
     'C04': dict(
         category='proof', design_ref='6/C04',
         text="The whole view of the state returned by CoinState.add_block_no_validation (blocks, unspent sets, by-height "
